@@ -247,7 +247,7 @@ def model_spa_class():
 
         def _should_ignore(self, handler, sender, respect_rferr=True):
             for v in self.silent_verbs:
-                if getattr(handler, "raw", b"").startswith(v) or type(handler).__name__ == v:
+                if (isinstance(v, bytes) and getattr(handler, "raw", b"").startswith(v)) or type(handler).__name__ == v:
                     return True
             return super()._should_ignore(handler, sender, respect_rferr)
 
